@@ -200,7 +200,15 @@ EFFECT = [
     "c[k] = a2[0]\nc[k].push(w)\ne['m'] = a2[1]\ne['m']['z'] = w",
     "c[k] = [w]\nc[k] += em\nx = [em, ed]\nx[0].push(w)\nx[1]['z'] = w",
     "acc = [w]\nacc += [em]\nacc[1].push(w)\nc[k] = ed\nc[k]['z'] = w",
+    # (28..) the value IS or CONTAINS the container it is stored into: a snapshot is stored (result must be True)
+    "c[k] = c\nc.push(w)\nlen(c[k]) == 2",
+    "e['self'] = e\ne['x'] = w\nlen(e['self']) == 0",
+    "c[k] = [c]\nc.push(w)\nlen(c[k][0]) == 2",
+    "c[k] = [w]\nc[k] += [c]\nc.push(w)\nlen(c[k][1]) == 2",
+    "par['first'] = child\npar['z'] = w\n('z' in par['first']['parent']) == False",
+    "x = [a]\nx[0] = x\nx.push(w)\nlen(x[0]) == 1",
 ]
+MUST_BE_TRUE = set(range(28, 34))
 MAY_FAIL = (19, 20, 21, 22)          # a refusal (error, nothing stored) is as good as an independent copy
 if isinstance(hlib.PARAM, dict) and "t" in hlib.PARAM:
     prewarm(EFFECT[hlib.PARAM["t"]])
@@ -220,10 +228,14 @@ def effect(v0: int, v1: int, v2: int, w: int, i: int, j: int, k: int, after: int
     import threading
     sess = {'tags': a, 'lock': threading.Lock()}          # a host structure that copy.deepcopy cannot copy
     em, ed, a2 = [], {}, [[], {}]
-    names = {'a': a, 'd': d, 'c': c, 'e': e, 'i': i, 'j': j, 'k': k, 'w': w, 'sess': sess, 'c2': [], 'c3': [0], 'zero': 0, 'one': 1,
+    par = {'kids': []}
+    child = {'parent': par}
+    names = {'par': par, 'child': child, 'a': a, 'd': d, 'c': c, 'e': e, 'i': i, 'j': j, 'k': k, 'w': w, 'sess': sess, 'c2': [], 'c3': [0], 'zero': 0, 'one': 1,
              'em': em, 'ed': ed, 'a2': a2}
     out = run_eval(EFFECT[t], names, 1000)
     assert out[0] == 'ok' or t in MAY_FAIL, "template failed"
+    if t in MUST_BE_TRUE:
+        assert out[1] is True, "a value stored into a container it refers to is not a snapshot: later changes of the container show through it"
     assert em == [] and ed == {} and a2 == [[], {}], "an empty host container changed although only values stored from it were mutated"
     assert a == [[v0, v1], [v2]] and d == {'p': [v0], 'q': v1}, \
         "a host object changed although only variables assigned from it were mutated"
